@@ -23,7 +23,7 @@ THOROUGH_S = 420
 BATCH = 6
 RULE = ('one evaluation = one seeded run: 4-20 values drawn from the picklable domain (ints of any magnitude, floats incl. -0.0/inf/nan, '
         'text over all code-point classes incl. CR, LF, NUL, every str.splitlines separator, U+FEFF/U+FFFE (biased to the first and last position), combining and astral characters, uniformly random code points and lone surrogates, bytes, None/bool, nested '
-        'containers, containers with shared sub-objects and with cycles (compared as object graphs), byte streams with seeded short reads) at lengths threshold-1/threshold/threshold+1 (and once per batch beyond the '
+        'containers, containers with shared sub-objects and with cycles (compared as object graphs), byte streams with seeded short reads, from real files with a consumed header and from gzip readers) at lengths threshold-1/threshold/threshold+1 (and once per batch beyond the '
         '4 MiB stream chunk) x disk_min_file_size in {0,1,8,64,32768} x pickle protocol 0-5 x Disk/JSONDisk, each stored through one '
         'of set/add/[]=/push/Deque.append(left)/Deque[]=/Index[]=/Index.setdefault/set(read=True) and read back through every accessor '
         'that applies (get, [], read, peek, peekitem, Deque/Index element access; after a simulated restart; then pop/pull/popitem); in '
@@ -31,7 +31,7 @@ RULE = ('one evaluation = one seeded run: 4-20 values drawn from the picklable d
         'an exception and no trace of the key; non-trivial = at least one file-backed value round-tripped; distinct = SHA-256 of the case')
 ASSUMPTIONS = ['this property is mostly a function of the input; the simulator contributes the stream, fault and restart dimensions, the value sweep is generative differential testing on the same runs',
                'JSONDisk is exercised with JSON-stable values only (no tuples, no byte strings, no streams)']
-PROBES = ('file_backed', 'stream_values', 'short_reads', 'rejected_values', 'restart_reads', 'oserr', 'chunk_boundary', 'shared_or_cyclic_values')
+PROBES = ('file_backed', 'stream_values', 'short_reads', 'rejected_values', 'restart_reads', 'oserr', 'chunk_boundary', 'shared_or_cyclic_values', 'real_file_streams')
 TECHNIQUE = 'deterministic simulation of the storage path (seeded short reads, injected file-system and stream errors, simulated restart) + generative round-trip comparison over the value domain'
 LEVEL_TEXT = ('seeded exploration of values x thresholds x serializer settings x store/read paths, with the I/O side under the simulator '
               '(streams that return short reads, one failing file-system call, process restart between write and read); round trips are '
@@ -172,6 +172,11 @@ def gen_case(seed, tier):
         step = {'how': how, 'v': spec, 'kind': kind, 'restart': rng.random() < 0.4}
         if how == 'stream':
             step['stream_fail'] = rng.choice((None, None, None, 0, 3))
+            # where the bytes come from: the simulator's stream (short reads), a real file opened 'rb' with a header already
+            # consumed, or a gzip reader over a real file - objects with a fileno() of their own
+            step['stream_src'] = rng.choice(('sim', 'sim', 'file', 'gzip'))
+            if step['stream_src'] != 'sim':
+                step['stream_fail'] = None
         steps.append(step)
     huge = seed % 97 == 0
     if huge and not json_ok:
@@ -257,6 +262,24 @@ def run_case(case):
                         cache[key] = value
                     elif how == 'push':
                         key = cache.push(value, prefix='q%d' % i)
+                    elif how == 'stream' and step.get('stream_src') in ('file', 'gzip'):
+                        import gzip
+                        src_path = world.path('source-%d.bin' % i)
+                        if step['stream_src'] == 'gzip':
+                            with gzip.open(src_path, 'wb') as fh:
+                                fh.write(value)
+                            stream = gzip.open(src_path, 'rb')
+                        else:
+                            with open(src_path, 'wb') as fh:
+                                fh.write(b'HEADER-16-BYTES!' + value)
+                            stream = open(src_path, 'rb')
+                            stream.read(16)      # the caller has consumed a header: what follows is the value
+                        try:
+                            cache.set(key, stream, read=True)
+                        finally:
+                            stream.close()
+                        probes['stream_values'] = probes.get('stream_values', 0) + 1
+                        probes['real_file_streams'] = probes.get('real_file_streams', 0) + 1
                     elif how == 'stream':
                         stream = SimStream(value, None if step.get('no_short') else stream_rng, step.get('stream_fail'))
                         cache.set(key, stream, read=True)
